@@ -511,6 +511,12 @@ STRING_TERMINALS = ['"a"', '"b"', '"+"', '"("', '")"', '"["', '"]"', '"if"', '":
 REGEXP_TERMINALS = ['/a/', '/[a-z]+/', '/\\d+/', '/[+-]/', '/x|y/', '/[\\/]/', '/a b/', '/"q"/', '/[*+?]/', '/\\w+/', '/[ab]c/', '/(a)*/', '/[|]/', '/\\[\\]/',
 	# bodies that begin / end with an escaped slash, a bracket or a quote (boundary characters of the printed form)
 	'/a\\//', '/\\//', '/<\\//', '/\\/a/', '/\\/\\//', '/[a]/', '/(a)/', '/"/', '/a"/']
+# backslash runs of length 1..5 directly before the delimiter: odd runs escape it (it stays inside the terminal), even runs do not
+REGEXP_TERMINALS += [r'/a\/b/', r'/a\\/', r'/a\\\/b/', r'/\\\//', r'/a\\\\/', r'/a\\\\\/b/', r'/[a-z]:\\\/\w+/', r'/\\\\\//']
+STRING_TERMINALS += [r'"a\\"', r'"a\\\\"', r'"\\\\"', r'"x\\y"', r'"x\\\y"']
+# raw ASCII control characters other than TAB/LF/CR inside terminals (form feed, vertical tab, FS, GS, RS): printed raw, lexed raw
+STRING_TERMINALS += ['"\x0c"', '"a\x0cb"', '"\x0b"', '"a\x1cb"', '"\x1d"', '"x\x1e"']
+REGEXP_TERMINALS += ['/a\x0cb/', '/\x0b/', '/x\x1c/']
 SYMBOL_NAMES = ['entry', 'expr', 'term', 'atom', 'name', 'op', 'x', 'y1', 'a_b', 'Rule', 'list', 'item', '_u', 'n0']
 
 
